@@ -98,9 +98,30 @@ META.update({
                 note=TB + "Totality (the default bound always suffices for acyclic models) is checked on chains, not yet proved in general."),
 })
 
-NOT_APPLICABLE = {
-    "C15": "check not built yet in this session; planned",
-    "C17": "check not built yet in this session; planned",
-    "C18": "check not built yet in this session; planned",
-    "C19": "check not built yet in this session; planned",
-}
+META.update({
+    "C15": dict(technique="Lean 4 proof (renaming function only) + differential run against Myokit's own evaluator",
+                text="Partial (level 'other'). Theorems gname_injective / imported_nodup: the names under which Myokit variables are imported (unique name, '_' appended for sympy's public "
+                     "names) are pairwise distinct. Everything else is decided by the differential run: generated .mmt models (nested variables with unique and repeated local names, clashes "
+                     "with sympy names, if / piecewise, all Myokit functions) and the repository's .mmt / CellML files are imported, saved, reloaded, and the generated rhs is compared with "
+                     "Model.evaluate_derivatives at the initial and perturbed states; states / constants / values / export back to Myokit are compared.",
+                note=TB + "Myokit's parsers, its sympy writer / reader and evaluate_derivatives are an oracle (A7), not modelled; the three xreplace passes over sympy expressions are not modelled in Lean."),
+    "C17": dict(technique="Lean 4 proof (lexer model: blanks, tabs and comment text produce no tokens) + differential inert-edit runs",
+                text="Partial. Theorems lex_skip_blank, lex_skip_blank_after_operand, lex_comment about the lexer model that mirrors lark's contextual lexing of ode.lark (pinned grammar rules, "
+                     "ignore list, caught exception classes); executable checks of the model on CRLF / continuation / comment variants. 18 kinds of edit the property calls inert are applied "
+                     "to generated models with comment texts from a pool of punctuation, arithmetic, unit-like and unicode strings: load (under a time limit), component membership, slot layout "
+                     "and generated bytes must not change; the Lean loader's verdict on every pair is compared with the implementation's.",
+                note=TB + "pint is assumption A6. Three grammar-level behaviours are recorded as known findings; a hang of pint on texts like '2**3**4**5' was observed in the design phase and is not exercised."),
+    "C18": dict(technique="Lean 4 proof over extracted option-forwarding tables + differential CLI runs",
+                text="Partial (level 'other'). Theorems ode2py_plumbing, ode2c_plumbing, no_option_dropped, config_keys over tables re-extracted from cli/*.py on every run: every option of a "
+                     "command reaches get_code under its name. The commands are run as subprocesses (python -m gotranx) in scratch project directories over random option combinations, "
+                     "--config files and pyproject.toml; the bytes written are compared with the API output for the effective options; invalid / missing models must exit non-zero without output.",
+                note=TB + "typer's parsing, black's project-root discovery and the file system are outside the model. clang-format is not installed: C runs use --format none."),
+    "C19": dict(technique="Lean 4 proof (renaming preserves values and scoping when injective; capture witness) + differential identifier-by-identifier runs",
+                text="Partial. Theorems eval_rename, fv_rename, wellScoped_rename (an injective renaming changes neither values nor the verdict of the scoping validator) and capture_witness. "
+                     "Identifiers from pools (names used by the templates, Python / C keywords, builtins, numpy / math / sympy names, near-misses) are tried as state, parameter and intermediate "
+                     "on NumPy, JAX and C: either generation raises, or every function returns the values of the same model with the identifier renamed; crashes, compile errors and silent "
+                     "differences are violations.",
+                note=TB + "The reserved-name sets themselves are not extracted into Lean; they are exercised exhaustively over the pools in the thorough tier."),
+})
+
+NOT_APPLICABLE = {}
